@@ -10,7 +10,7 @@ def run(res):
     n = 14 if res.tier == "quick" else 300
 
     def env(work):
-        return {"GORACE": "log_path=%s halt_on_error=0" % os.path.join(work, "race")}
+        return {"GORACE": "log_path=%s halt_on_error=0 exitcode=0" % os.path.join(work, "race")}
 
     def post(res, work):
         # every data race the detector logged is a violation; the first report of each distinct pair of
